@@ -121,18 +121,29 @@ def check_selection(seed, n_cases, n_max=4, debug=False):
             if cand:
                 T, R, X, flag = [rnd.choice(cand)[0]], None, None, True
         cases += 1
-        v = one_selection(w, R, X, T, flag, debug)
+        by_ref = rnd.random() < 0.3
+        if by_ref:
+            # node REFERENCES as aliases; a tag spelled like the id of another node must not matter for a reference
+            for nd in w.nodes.values():
+                if rnd.random() < 0.5:
+                    nd["tag"] = rnd.choice(ids)
+        v = one_selection(w, R, X, T, flag, debug, by_ref=by_ref)
         if v:
-            viol.append(dict(kind="history", check="selection", seed=seed, index=idx, debug=debug, world=w.describe(), R=R, X=X, T=T, flag=flag, violations=v))
+            viol.append(dict(kind="history", check="selection", seed=seed, index=idx, debug=debug, world=w.describe(), R=R, X=X, T=T, flag=flag, by_reference=by_ref, violations=v))
     return viol, cases
 
 
-def one_selection(w, R, X, T, flag, debug):
+def one_selection(w, R, X, T, flag, debug, by_ref=False):
     v = []
     old = cfg.RUN_DEBUG_NODES
     cfg.RUN_DEBUG_NODES = flag
     try:
         dag = w.build_dag()
+        if by_ref:
+            as_ref = lambda L: None if L is None else [dag.exec_nodes[i] for i in L]  # noqa: E731
+            Tq, Xq, Rq = as_ref(T), as_ref(X), as_ref(R)
+        else:
+            Tq, Xq, Rq = T, X, R
         before = set(dag.graph_ids.nodes)
         dbg = {n for n in w.order if w.nodes[n].get("debug")}
         want_err = False
@@ -145,7 +156,7 @@ def one_selection(w, R, X, T, flag, debug):
             if T is not None and not set(T) <= B:
                 want_err = True
         try:
-            ex = dag.executor(target_nodes=T, exclude_nodes=X, root_nodes=R)
+            ex = dag.executor(target_nodes=Tq, exclude_nodes=Xq, root_nodes=Rq)
         except ValueError:
             if not want_err:
                 v.append(f"ValueError for the legal selection R={R} X={X} T={T}")
